@@ -124,6 +124,15 @@ func (e *Engine) verifAPI(s *State, f *Frame, call *ssa.Call, fn *ssa.Function, 
 		s.Unwind = intArg(args[0])
 		set(nil)
 		return true
+	case short == "verifTripBound":
+		s.TripBound = intArg(args[0])
+		set(nil)
+		return true
+	case short == "verifUnwindCut":
+		s.Unwind = intArg(args[0])
+		s.UnwindCut = true
+		set(nil)
+		return true
 	case short == "verifAllocBudget":
 		s.Budget = args[0].(*Term)
 		if s.Alloc == nil {
@@ -215,6 +224,27 @@ func (e *Engine) verifAPI(s *State, f *Frame, call *ssa.Call, fn *ssa.Function, 
 		iv := args[0].(IfaceV)
 		set(iv.V.(SliceV).Len)
 		return true
+	case short == "verifEncodeFixed":
+		big := strings.Contains(types.TypeString(args[0].(IfaceV).T, nil), "bigEndian")
+		iv := args[1].(IfaceV)
+		cells := e.fixedCells(s, iv.V, iv.T, big)
+		set(e.newByteSlice(s, cells))
+		return true
+	case short == "verifFixedSize":
+		iv := args[0].(IfaceV)
+		t := iv.T
+		if p, ok := t.Underlying().(*types.Pointer); ok {
+			t = p.Elem()
+		}
+		set(I64(e.fixedSize(s, iv.V, t)))
+		return true
+	case short == "verifDecodeFixed":
+		big := strings.Contains(types.TypeString(args[0].(IfaceV).T, nil), "bigEndian")
+		cells := e.bytesOfSlice(s, args[1])
+		iv := args[2].(IfaceV)
+		e.decodeFixed(s, cells, iv.V, iv.T, big)
+		set(nil)
+		return true
 	case short == "verifComparableErr":
 		iv := args[0].(IfaceV)
 		set(Bool(iv.T == nil || types.Comparable(iv.T)))
@@ -229,4 +259,142 @@ func (e *Engine) verifAPI(s *State, f *Frame, call *ssa.Call, fn *ssa.Function, 
 		return true
 	}
 	return false
+}
+
+// fixedCells serialises a fixed-size value the way encoding/binary does.
+func (e *Engine) fixedCells(s *State, v Value, t types.Type, big bool) []*Term {
+	switch x := v.(type) {
+	case *Term:
+		if x.Sort.Kind == 0 {
+			return []*Term{Ite(x, BVInt(1, 8), BVInt(0, 8))}
+		}
+		n := x.Sort.Width / 8
+		out := make([]*Term, n)
+		for i := 0; i < n; i++ {
+			b := Extract(8*i+7, 8*i, x)
+			if big {
+				out[n-1-i] = b
+			} else {
+				out[i] = b
+			}
+		}
+		return out
+	case *ArrayV:
+		et := t.Underlying().(*types.Array).Elem()
+		var out []*Term
+		for _, el := range x.E {
+			out = append(out, e.fixedCells(s, el, et, big)...)
+		}
+		return out
+	case *StructV:
+		st := t.Underlying().(*types.Struct)
+		var out []*Term
+		for i, f := range x.F {
+			out = append(out, e.fixedCells(s, f, st.Field(i).Type(), big)...)
+		}
+		return out
+	case SliceV:
+		et := t.Underlying().(*types.Slice).Elem()
+		var out []*Term
+		for _, el := range e.sliceElems(s, x) {
+			out = append(out, e.fixedCells(s, el, et, big)...)
+		}
+		return out
+	case PtrV:
+		pt := t.Underlying().(*types.Pointer).Elem()
+		return e.fixedCells(s, e.load(s, x), pt, big)
+	}
+	unsupp("binary.Write of %T", v)
+	return nil
+}
+
+func (e *Engine) fixedSize(s *State, v Value, t types.Type) int {
+	switch u := t.Underlying().(type) {
+	case *types.Basic:
+		if w, _, ok := intWidth(u); ok {
+			return w / 8
+		}
+		if u.Kind() == types.Bool {
+			return 1
+		}
+	case *types.Array:
+		return int(u.Len()) * e.fixedSize(s, nil, u.Elem())
+	case *types.Struct:
+		n := 0
+		for i := 0; i < u.NumFields(); i++ {
+			n += e.fixedSize(s, nil, u.Field(i).Type())
+		}
+		return n
+	case *types.Slice:
+		if sl, ok := v.(SliceV); ok {
+			n, ok := cint(sl.Len)
+			if !ok {
+				unsupp("binary.Read into symbolic-length slice")
+			}
+			return n * e.fixedSize(s, nil, u.Elem())
+		}
+	}
+	unsupp("binary.Read/Write size of %v", t)
+	return 0
+}
+
+func (e *Engine) decodeFixed(s *State, cells []*Term, v Value, t types.Type, big bool) {
+	switch x := v.(type) {
+	case PtrV:
+		pt := t.Underlying().(*types.Pointer).Elem()
+		nv, _ := e.decodeValue(cells, pt, big)
+		e.store(s, x, nv)
+		return
+	case SliceV:
+		et := t.Underlying().(*types.Slice).Elem()
+		n, _ := cint(x.Len)
+		for i := 0; i < n; i++ {
+			var nv Value
+			nv, cells = e.decodeValue(cells, et, big)
+			e.store(s, PtrV{Obj: x.Obj, Path: extendPath(x.Path, elemAt(x.Off, i))}, nv)
+		}
+		return
+	}
+	unsupp("binary.Read into %T", v)
+}
+
+func (e *Engine) decodeValue(cells []*Term, t types.Type, big bool) (Value, []*Term) {
+	switch u := t.Underlying().(type) {
+	case *types.Basic:
+		if w, _, ok := intWidth(u); ok {
+			n := w / 8
+			var r *Term
+			for i := 0; i < n; i++ {
+				var b *Term
+				if big {
+					b = cells[i]
+				} else {
+					b = cells[n-1-i]
+				}
+				if r == nil {
+					r = b
+				} else {
+					r = Concat(r, b)
+				}
+			}
+			return r, cells[n:]
+		}
+		if u.Kind() == types.Bool {
+			return Not(Eq(cells[0], BVInt(0, 8))), cells[1:]
+		}
+	case *types.Array:
+		els := make([]Value, u.Len())
+		for i := range els {
+			els[i], cells = e.decodeValue(cells, u.Elem(), big)
+		}
+		return &ArrayV{els}, cells
+	case *types.Struct:
+		fs := make([]Value, u.NumFields())
+		for i := range fs {
+			fs[i], cells = e.decodeValue(cells, u.Field(i).Type(), big)
+		}
+		return &StructV{fs}, cells
+	}
+	unsupp("binary.Read of %v", t)
+	return nil, nil
 }
